@@ -206,15 +206,15 @@ func (k c05Cfg) tree() *drive.Cmd {
 	for i := 0; i <= k.d; i++ {
 		n := &drive.Cmd{ID: i, Aliases: []string{fmt.Sprintf("c%d", i), fmt.Sprintf("c%d_alias", i), fmt.Sprintf("k%d", i)}, Prog: &Prog{}, Parent: cur}
 		n.Before = c05Beh(k.beh[i], i)
-		n.Before.PanKind = (k.digest() + i) % 4
+		n.Before.PanKind = (k.digest() + i) % 6
 		n.Before.Deferred = (k.digest()+i)%5 == 2
 		hi := k.d + 1 + (k.d - i) + 1
 		n.After = c05Beh(k.beh[hi], hi)
-		n.After.PanKind = (k.digest() + hi) % 4
+		n.After.PanKind = (k.digest() + hi) % 6
 		n.After.Deferred = (k.digest()+hi)%5 == 2
 		if i == k.d {
 			n.Action = c05Beh(k.beh[k.d+1], k.d+1)
-			n.Action.PanKind = (k.digest() + k.d + 1) % 4
+			n.Action.PanKind = (k.digest() + k.d + 1) % 6
 			n.Action.Deferred = (k.digest()+k.d+1)%5 == 2
 		} else {
 			n.Action = drive.Beh{Kind: drive.BehReturn} // never addressed
